@@ -147,6 +147,16 @@ type allPods struct{ pods []*v1.Pod }
 func (l allPods) List(labels.Selector) ([]*v1.Pod, error) { return l.pods, nil }
 func (l allPods) Pods(string) listerv1.PodNamespaceLister  { return nil }
 
+type dynPods struct{ p *[]*v1.Pod }
+
+func (l dynPods) List(labels.Selector) ([]*v1.Pod, error) { return *l.p, nil }
+func (l dynPods) Pods(string) listerv1.PodNamespaceLister  { return nil }
+
+type dynNodes struct{ n *[]*v1.Node }
+
+func (l dynNodes) List(labels.Selector) ([]*v1.Node, error) { return *l.n, nil }
+func (l dynNodes) Get(string) (*v1.Node, error)              { return nil, fmt.Errorf("no") }
+
 type allNodes struct{ nodes []*v1.Node }
 
 func (l allNodes) List(labels.Selector) ([]*v1.Node, error) { return l.nodes, nil }
@@ -189,6 +199,14 @@ func cmdAttrib(fs *flag.FlagSet, args []string) {
 	tr := newOut(*trace)
 	defer tr.close()
 	const batch = 500
+	// the listers live as long as the controller does; object names recur from batch to batch with different shapes
+	// (a re-submitted job keeps its name), so nothing may remember a verdict by name
+	cur := &struct {
+		pods  []*v1.Pod
+		nodes []*v1.Node
+	}{}
+	gl := controller.NewNodeGroupLister(dynPods{&cur.pods}, dynNodes{&cur.nodes}, gOpts)
+	dl := controller.NewDefaultNodeGroupLister(dynPods{&cur.pods}, dynNodes{&cur.nodes}, dOpts)
 	for start := 0; start < len(cases); start += batch {
 		end := start + batch
 		if end > len(cases) {
@@ -200,7 +218,7 @@ func cmdAttrib(fs *flag.FlagSet, args []string) {
 		for i := start; i < end; i++ {
 			c := cases[i]
 			o := AttrObs{Ev: "attr", Src: c.Src, Case: c}
-			name := fmt.Sprintf("o%d", i)
+			name := fmt.Sprintf("o%d", i%batch)
 			if c.Kind == "pod" {
 				p := mkAttrPod(c, name)
 				pods = append(pods, p)
@@ -212,8 +230,7 @@ func cmdAttrib(fs *flag.FlagSet, args []string) {
 			}
 			obs[i-start] = o
 		}
-		gl := controller.NewNodeGroupLister(allPods{pods}, allNodes{nodes}, gOpts)
-		dl := controller.NewDefaultNodeGroupLister(allPods{pods}, allNodes{nodes}, dOpts)
+		cur.pods, cur.nodes = pods, nodes
 		in := func(names map[string]bool, n string) bool { return names[n] }
 		gp, _ := gl.Pods.List()
 		dp, _ := dl.Pods.List()
@@ -234,7 +251,7 @@ func cmdAttrib(fs *flag.FlagSet, args []string) {
 		}
 		for i := start; i < end; i++ {
 			o := &obs[i-start]
-			name := fmt.Sprintf("o%d", i)
+			name := fmt.Sprintf("o%d", i%batch)
 			o.GroupLs, o.DefaultLs, o.NodeLs, o.NodeDefLs = in(gps, name), in(dps, name), in(gns, name), in(dns, name)
 			tr.emit(*o)
 		}
